@@ -118,10 +118,15 @@ CHECKS = {
                      "the real HTTPFile over an in-memory RFC 7233 host",
         "text": "For 7 resource lengths around multiples of the chunk size "
                 "x chunk sizes {4,5,8} x keep_chunks {1,2,3} x server "
-                "flavours, every seek(set/cur/end)/tell/read(n) history to "
-                "depth 5 (quick) / 6 (thorough), reads beyond EOF as "
-                "deviations: returned bytes, position and the cache bound "
-                "are checked in every state. Generated .rtdc files served "
+                "flavours, every seek(set/cur/end)/tell/read(n) history, "
+                "reads beyond EOF as deviations (at most one): returned "
+                "bytes, position and the cache bound are checked in every "
+                "state. The search runs until no new state appears (depth "
+                "7 of a bound of 10 in the quick grid; evidence field "
+                "runs_closed = number of configurations whose reachable "
+                "state set was exhausted), so within the alphabet the "
+                "verdict holds for histories of any length. Thorough: "
+                "chunk sizes {3,4,5,8}, 11 lengths, keep_chunks 1..4. Generated .rtdc files served "
                 "by the fake host: RTDC_HTTP equals RTDC_HDF5 (features, "
                 "metadata, logs, tables) for chunk sizes incl. a divisor of "
                 "the file length. The same search runs on dclab's S3File "
